@@ -905,6 +905,13 @@ def minimise_turn(h, case, sig, what):
             if c["budgets"].get(k) is None:
                 continue
             c["budgets"][k] = None
+            if still(c) is None:  # the budget is needed: shrink its value instead
+                for v in range(0, int(cur["budgets"][k])):
+                    c["budgets"][k] = v
+                    if still(c) is not None:
+                        break
+                else:
+                    continue
         elif what_ == "wall":
             if c.get("wall") is None:
                 continue
